@@ -47,13 +47,13 @@ const RES: &[Res] = &[
   Res { url: "https://x/latin1.ts", honest: b"// caf\xE9\nexport const l = 1;\n", registry: false, declaration: false, asset: false },
   Res { url: "https://jsr.io/@s/a/1.0.0/mod.ts", honest: b"import \"./sub.ts\";\nexport const a = 1;\n", registry: true, declaration: false, asset: false },
   Res { url: "https://jsr.io/@s/a/1.0.0/sub.ts", honest: b"export const s = 1;\n", registry: true, declaration: false, asset: false },
-  Res { url: "https://jsr.io/@s/b/1.0.0/mod.ts", honest: b"export const b = 1;\n", registry: true, declaration: false, asset: false },
-  Res { url: "https://jsr.io/@s/b/1.0.0/data.txt", honest: b"registry asset\n", registry: true, declaration: false, asset: true },
+  Res { url: "https://jsr.io/@s/b/1.0.0-rc.1/mod.ts", honest: b"export const b = 1;\n", registry: true, declaration: false, asset: false },
+  Res { url: "https://jsr.io/@s/b/1.0.0-rc.1/data.txt", honest: b"registry asset\n", registry: true, declaration: false, asset: true },
   // imported as ./seeded_from.ts, a redirect that the lockfile may have put into the graph before the build
   Res { url: "https://x/seeded_target.ts", honest: b"export const st = 1;\n", registry: false, declaration: false, asset: false },
 ];
 
-const ROOT: &str = "import \"./m.ts\";\nawait import(\"./dyn.ts\");\nimport t from \"./asset.txt\" with { type: \"text\" };\nimport \"./redir.ts\";\nimport \"./types.d.ts\";\nimport \"./bom.ts\";\nimport \"./latin1.ts\";\nimport \"./seeded_from.ts\";\nimport \"jsr:@s/a\";\nimport \"https://jsr.io/@s/b/1.0.0/mod.ts\";\nimport x from \"https://jsr.io/@s/b/1.0.0/data.txt\" with { type: \"text\" };\n";
+const ROOT: &str = "import \"./m.ts\";\nawait import(\"./dyn.ts\");\nimport t from \"./asset.txt\" with { type: \"text\" };\nimport \"./redir.ts\";\nimport \"./types.d.ts\";\nimport \"./bom.ts\";\nimport \"./latin1.ts\";\nimport \"./seeded_from.ts\";\nimport \"jsr:@s/a\";\nimport \"https://jsr.io/@s/b/1.0.0-rc.1/mod.ts\";\nimport x from \"https://jsr.io/@s/b/1.0.0-rc.1/data.txt\" with { type: \"text\" };\n";
 
 fn tampered(b: &[u8]) -> Vec<u8> {
   let mut v = b.to_vec();
@@ -111,7 +111,7 @@ fn body(ch: &Ch) -> Run {
   let pb = RegPackage {
     name: "@s/b".into(),
     versions: vec![{
-      let mut v = RegVersion::new("1.0.0", &[]);
+      let mut v = RegVersion::new("1.0.0-rc.1", &[]);
       v.files = vec![("/mod.ts".into(), RES[9].honest.to_vec()), ("/data.txt".into(), RES[10].honest.to_vec())];
       v.exports = json!({".": "./mod.ts"});
       v.embed_module_graph = embed;
@@ -196,10 +196,10 @@ fn body(ch: &Ch) -> Run {
     match manifest_lock[k] {
       Lock::Absent => {}
       Lock::Matching => {
-        locker.manifests.insert(format!("{}@1.0.0", p.name), LoaderChecksum::r#gen(&manifest_bytes(p)));
+        locker.manifests.insert(format!("{}@{}", p.name, p.versions[0].version), LoaderChecksum::r#gen(&manifest_bytes(p)));
       }
       Lock::Mismatching => {
-        locker.manifests.insert(format!("{}@1.0.0", p.name), wrong.clone());
+        locker.manifests.insert(format!("{}@{}", p.name, p.versions[0].version), wrong.clone());
       }
     }
   }
@@ -398,7 +398,7 @@ fn body(ch: &Ch) -> Run {
   }
   // version manifests
   for (k, p) in [&pa, &pb].iter().enumerate() {
-    let nv = format!("{}@1.0.0", p.name);
+    let nv = format!("{}@{}", p.name, p.versions[0].version);
     let meta_url = url(&p.version_meta_url(&p.versions[0]));
     let calls: Vec<&LoadCall> = log.iter().filter(|c| c.specifier == meta_url).collect();
     if let Some(exp) = seeded.manifests.get(&nv) {
